@@ -101,6 +101,95 @@ theorem rename_name_preserves_eval {D : Type} (F : Fold) (tbl : DefTable D) (old
   · intro vn hvn
     rw [identDen_rename F tbl old scope new vn.1 vn.2 (hfresh vn hvn)]
 
+/-! ### one update that changes name AND scope -/
+
+/-- **one identifier**, simultaneous change of spelling and scope: a user of the definition
+    `(scope, old)` denotes, in the updated table, what it denoted before; so does every other identifier,
+    provided none of them already occupies the target key `(newScope, new)`.  Covers the four
+    combinations: `new = old` (scope only), `newScope = scope` (name only), both, neither. -/
+theorem identDen_update {D : Type} (F : Fold) (tbl : DefTable D) (old : String) (scope : Option Nat)
+    (new : String) (newScope : Option Nat) (v : NameRes) (n : String)
+    (hclash : ¬ (F.low old = F.low n ∧ v = some scope) → ¬ (v = some newScope ∧ F.low n = F.low new)) :
+    identDen F (updateTable F tbl old scope new newScope)
+        (retargetIdent F.low old scope new newScope v n).1 (retargetIdent F.low old scope new newScope v n).2
+      = identDen F tbl v n := by
+  unfold retargetIdent
+  cases v with
+  | none => rfl
+  | some s =>
+    simp only
+    by_cases h : F.low old = F.low n ∧ s = scope
+    · obtain ⟨h1, h2⟩ := h
+      simp [h1, h2, identDen, updateTable]
+    · simp only [h, if_false, identDen, updateTable]
+      have hnu : ¬ (F.low old = F.low n ∧ some s = some scope) := by
+        intro c; exact h ⟨c.1, Option.some.inj c.2⟩
+      have c1 : ¬ (s = newScope ∧ F.low n = F.low new) := by
+        intro c; exact hclash hnu ⟨by rw [c.1], c.2⟩
+      have c2 : ¬ (s = scope ∧ F.low n = F.low old) := fun c => h ⟨c.2.symm, c.1⟩
+      simp [c1, c2]
+
+/-- **C32 (update name and scope in one call).** Re-spelling and re-binding the users of a definition
+    together with moving its key leaves the denotation of the whole formula unchanged, for every tree in
+    which no other identifier already denotes the target key; the users are selected by the OLD scope
+    (the seeded defect passed the new scope). -/
+theorem update_name_scope_preserves_eval {D : Type} (F : Fold) (tbl : DefTable D) (old : String)
+    (scope : Option Nat) (new : String) (newScope : Option Nat) (t : Node)
+    (hclash : ∀ vn ∈ Tree.idents t, ¬ (F.low old = F.low vn.2 ∧ vn.1 = some scope) →
+      ¬ (vn.1 = some newScope ∧ F.low vn.2 = F.low new)) :
+    denote F (updateTable F tbl old scope new newScope) (retargetNameInNode F.low old scope new newScope t)
+      = denote F tbl t := by
+  unfold denote retargetNameInNode
+  rw [Tree.map_map]
+  apply Tree.map_congr
+  · intro _ _; rfl
+  · intro vn hvn
+    rw [identDen_update F tbl old scope new newScope vn.1 vn.2 (hclash vn hvn)]
+
+/-- selecting the users by the NEW scope (the seeded defect) is wrong: a user of the Sheet-local
+    `ratio` (scope index 1) moved to the global `factor` keeps its spelling and denotes nothing -/
+example : identDen (D := String) ⟨id, id⟩
+      (updateTable ⟨id, id⟩ (fun s k => if s = some 1 ∧ k = "ratio" then some "Sheet2!$A$1" else none)
+        "ratio" (some 1) "factor" none)
+      (retargetIdent id "ratio" none "factor" none (some (some 1)) "ratio").1
+      (retargetIdent id "ratio" none "factor" none (some (some 1)) "ratio").2 = none
+    ∧ identDen (D := String) ⟨id, id⟩
+      (updateTable ⟨id, id⟩ (fun s k => if s = some 1 ∧ k = "ratio" then some "Sheet2!$A$1" else none)
+        "ratio" (some 1) "factor" none)
+      (retargetIdent id "ratio" (some 1) "factor" none (some (some 1)) "ratio").1
+      (retargetIdent id "ratio" (some 1) "factor" none (some (some 1)) "ratio").2 = some "Sheet2!$A$1" := by decide
+
+/-- the re-parse binds the new spelling to the moved definition on every sheet from which it is
+    visible (its own sheet, or any sheet when it is global) when no other name has that spelling there -/
+theorem update_name_reresolves_visible (F : Fold) (dns : List (String × Option Nat)) (c : Nat) (new : String)
+    (newScope : Option Nat)
+    (huniq : ∀ d ∈ dns, F.low new = F.low d.1 → d.2 = newScope)
+    (hex : ∃ d ∈ dns, F.low new = F.low d.1 ∧ d.2 = newScope)
+    (hvis : newScope = some c ∨ newScope = none) :
+    resolveIdent F dns (some c) new = some newScope := by
+  obtain ⟨d, hd, hn, hs⟩ := hex
+  unfold resolveIdent
+  simp only
+  rcases hvis with hv | hv
+  · subst hv
+    have : dns.any (fun d => F.low new == F.low d.1 && d.2 == some c) = true := by
+      rw [List.any_eq_true]; exact ⟨d, hd, by simp [hn, hs]⟩
+    simp [this]
+  · subst hv
+    have h1 : dns.any (fun d => F.low new == F.low d.1 && d.2 == some c) = false := by
+      cases h : dns.any (fun d => F.low new == F.low d.1 && d.2 == some c) with
+      | false => rfl
+      | true =>
+        rw [List.any_eq_true] at h
+        obtain ⟨e, he, hm⟩ := h
+        simp only [Bool.and_eq_true, beq_iff_eq] at hm
+        have := huniq e he hm.1
+        rw [this] at hm
+        exact absurd hm.2 (by simp)
+    have h2 : dns.any (fun d => F.low new == F.low d.1 && d.2 == none) = true := by
+      rw [List.any_eq_true]; exact ⟨d, hd, by simp [hn, hs]⟩
+    rw [h1, h2]; simp
+
 /-- the rewrite touches identifiers only: every reference of the formula is kept as it is -/
 theorem rename_name_keeps_refs (F : Fold) (old : String) (scope : Option Nat) (new : String) (t : Node) :
     Tree.refs (renameDefinedNameInNode F.low old scope new t) = Tree.refs t := by
